@@ -482,7 +482,7 @@ class World:
                     f'impl PartialEq for {name} {{\n    #[verifier::external_body]\n'
                     f'    fn eq(&self, o: &{name}) -> (r: bool) ensures r == (*self == *o) {{ unimplemented!() }}\n}}\n')
         if 'serialize' in optset:
-            gen += f'impl crate::serde::Serialize for {name} {{}}\nimpl crate::serde::de::DeserializeOwned for {name} {{}}\n'
+            gen += f'impl crate::serde::Serialize for {name} {{}}\n'
         for variant, ty in from_variants:
             gen += (f'impl From<{ty}> for {name} {{\n'
                     f'    fn from(e: {ty}) -> (r: Self) ensures r == {name}::{variant}(e) {{ {name}::{variant}(e) }}\n}}\n'
